@@ -620,6 +620,9 @@ fn logical_or<'s>(input: &mut &'s str) -> PResult<(), SemverParseError<&'s str>>
 fn range<'s>(input: &mut &'s str) -> PResult<Vec<BoundSet>, SemverParseError<&'s str>> {
     // TODO: loose parsing means that `1.2.3 foo` translates to `1.2.3`, so we
     // need to do some stuff here to filter out unwanted BoundSets.
+
+    // Blanks before an alternative mean nothing (` v1 - 2` is `v1 - 2`).
+    let _ = space0(input)?;
     alt((
         // range ::= hyphen | ...: a hyphen range is a whole alternative, not
         // one comparator of a set (`1 - 2 foo` is `1 2`, as in node-semver).
